@@ -63,7 +63,14 @@ func (g CmdGen) Gen(r *sim.Rand, maxBytes int) (Cmd, bool) {
 		if 1+d.Size > maxBytes {
 			continue
 		}
-		return d.GenCmd(r), true
+		c := d.GenCmd(r)
+		if d.CID == 0x0e && !d.Up && c.F[2] == 1 {
+			// ForceRejoinReq RejoinType 1 is spec-valid but refused by the
+			// library (recorded finding of C07, judged there): frames and
+			// streams of the worlds avoid it
+			c.F[2] = 0
+		}
+		return c, true
 	}
 	return Cmd{}, false
 }
@@ -108,7 +115,7 @@ func GenFrame(r *sim.Rand, uplink bool, devAddr [4]byte, fcnt uint32, g CmdGen, 
 		f.MType = 5
 	}
 	f.ADR = r.Intn(2) == 0
-	f.ADRACK = r.Intn(4) == 0
+	f.ADRACK = uplink && r.Intn(4) == 0 // bit 6 of a downlink FCtrl is RFU
 	f.ACK = r.Intn(3) == 0
 	f.Bit4 = r.Intn(4) == 0
 	shape := r.Intn(10)
